@@ -88,6 +88,30 @@ def handle : List String → String
       let (total, hs, bits) := Spec.Merkle.buildProof H (ids.map List.reverse) m
       let flags ← bitFieldToBytes bits
       pure s!"{total} {fmtBytesList (hs.map List.reverse)} {fmtBytes flags}"
+  | "tree_hist" :: total :: k :: toks => optS do
+      -- one MerkleTree(total) object, populate_tree called k times: after each call the outcome, root() and proved_txs
+      let total ← parseNat total
+      let k ← parseNat k
+      let rec go : Nat → TreeSt → List String → List String → Option (List String)
+        | 0, _, ts, acc => if ts = [] then some acc.reverse else none
+        | n + 1, t, ts, acc => do
+          match ts with
+          | bits :: rest =>
+            let bits ← parseBits bits
+            let (hs, rest) ← parseCounted oneBytes rest
+            let (t', out) := populateOn H t bits hs
+            let o := match out with
+              | .done _ _ => "ok"
+              | .error => REJECT
+              | .outOfFuel => "FUEL"
+            let root := match t'.get 0 0 with
+              | none => REJECT
+              | some none => "none"
+              | some (some r) => fmtBytes r
+            go n t' rest (s!"{o} {root} {fmtBytesList t'.proved}" :: acc)
+          | [] => none
+      let outs ← go k (newTree total) toks []
+      pure (String.intercalate " | " outs)
   | ["bytes_to_bits", b] => optS do pure (fmtBits (bytesToBitField (← parseBytes b)))
   | ["bits_to_bytes", m] => optS do pure (orReject ((bitFieldToBytes (← parseBits m)).map fmtBytes))
   | ["bits_to_target", b] => optS do
